@@ -69,7 +69,7 @@ Qed.
 Lemma ex_readdir : handler_exact 28 (h_readdir_readdirplus 28).
 Proof.
   op_start 28 h_readdir_readdirplus.
-  replace (cap <? fld q "size") with false by lia.
+  replace (cap <? fld q "size" + OUT_HDR) with false by lia.
   replace (cap <? OUT_HDR) with false by lia.
   change (28 =? 44) with false. cbv iota.
   finish.
@@ -78,7 +78,7 @@ Qed.
 Lemma ex_readdirplus : handler_exact 44 (h_readdir_readdirplus 44).
 Proof.
   op_start 44 h_readdir_readdirplus.
-  replace (cap <? fld q "size") with false by lia.
+  replace (cap <? fld q "size" + OUT_HDR) with false by lia.
   replace (cap <? OUT_HDR) with false by lia.
   change (44 =? 44) with true. cbv iota.
   finish.
